@@ -183,6 +183,23 @@ fn main() {
                 let r = do_value(&syms, &text);
                 w.emit(&json!({"ev": "Value", "case": id, "build": build, "res": r}));
             }
+            "value_raw" => {
+                // only the library: parse, reduce, drop - nothing of the harness' own recursion (stage markers are flushed)
+                let text = syms.text(&c["s"]);
+                w.emit(&json!({"ev": "Stage", "case": id, "stage": "start"}));
+                let key_path = KeyPath::new(None);
+                let locale = Key::new("en").unwrap();
+                let fks = ForeignKeysPaths::new();
+                let r = ParsedValue::new(&text, &key_path, &locale, &fks);
+                w.emit(&json!({"ev": "Stage", "case": id, "stage": "parsed", "ok": r.is_ok()}));
+                if let Ok(mut v) = r {
+                    v.reduce();
+                    w.emit(&json!({"ev": "Stage", "case": id, "stage": "reduced"}));
+                    drop(v);
+                    w.emit(&json!({"ev": "Stage", "case": id, "stage": "dropped"}));
+                }
+                w.emit(&json!({"ev": "Value", "case": id, "build": build, "res": {"outcome": "Ok"}}));
+            }
             "plural_oracle" => {
                 let r = do_plural_oracle(&c);
                 w.emit(&json!({"ev": "PluralOracle", "case": id, "oracle": r}));
